@@ -286,7 +286,12 @@ def _random_tree(args):
         raise RuntimeError(f"renormalizer.tn not importable: {e}")
     for rep in range(2 if tier == "quick" else 5):
         tcase = trees.random_tree_case(seed, k, rep)
-        for crit, thr, M in (("fixed", (1, 10), 2), ("threshold", (1, 10), None), ("both", (1, 100), 3), ("fixed", (1, 10), 1), ("threshold", (1, 2), None)):
+        nn = len(tcase["parents"])
+        lrng = rng_for(seed, "c05-tree-limits", k, rep)
+        per_node = [int(x) for x in lrng.integers(1, 4, size=nn)]           # entry i = limit of the bond node i -> parent
+        for crit, thr, M in (("fixed", (1, 10), 2), ("threshold", (1, 10), None), ("both", (1, 100), 3), ("fixed", (1, 10), 1), ("threshold", (1, 2), None),
+                             ("fixed", (1, 10), ("temp-list", per_node)), ("fixed", (1, 10), ("temp-array", per_node)), ("fixed", (1, 10), ("max_dims", per_node)),
+                             ("both", (1, 100), ("max_dims", per_node))):
             detail = {"tree": tcase["desc"], "crit": crit, "thr": thr, "M": M, "k": k, "rep": rep}
             try:
                 t = trees.random_ttns(tcase, 5, (seed, "c05-tree", k, rep))
@@ -296,11 +301,26 @@ def _random_tree(args):
                 ref = trees.dense(t, tcase)
                 if np.linalg.norm(ref) < 1e-12:
                     continue
-                cfg = CompressConfig(_crit(crit), threshold=THR[thr], max_bonddim=M if M else 32)
-                t.compress_config = cfg
-                with Recorder() as rec:
-                    t.compress()
-                out["trace"] += _trace_records(rec.calls, f"tr/{k}/{rep}/{crit}/{thr}/{M}")
+                lims = None
+                if isinstance(M, tuple):
+                    how, lims = M
+                    cfg = CompressConfig(_crit(crit), threshold=THR[thr], max_bonddim=32)
+                    if how == "max_dims":
+                        cfg.set_bonddim(nn + 1)
+                        cfg.max_dims[:nn] = np.array(lims, dtype=int)
+                    t.compress_config = cfg
+                    if how == "temp-list":
+                        t.compress(temp_m_trunc=list(lims))
+                    elif how == "temp-array":
+                        t.compress(temp_m_trunc=np.array(lims))
+                    else:
+                        t.compress()
+                else:
+                    cfg = CompressConfig(_crit(crit), threshold=THR[thr], max_bonddim=M if M else 32)
+                    t.compress_config = cfg
+                    with Recorder() as rec:
+                        t.compress()
+                    out["trace"] += _trace_records(rec.calls, f"tr/{k}/{rep}/{crit}/{thr}/{M}")
             except Exception as e:
                 cls = "flat-spectrum-large-threshold" if (crit == "threshold" and thr in ((9, 10), (1, 2))) else "general"
                 out["viol"].append((f"C05:tree-raises:{crit}:{cls}", f"TTNS.compress raised {type(e).__name__}: {e}", detail))
@@ -308,7 +328,11 @@ def _random_tree(args):
             out["cases"].append(json.dumps(detail))
             got = trees.dense(t, tcase)
             bd = trees.bond_dims(t)
-            if M and any(b > M for b in bd.values()):
+            if lims is not None:
+                if any(b > lims[i] for i, b in bd.items()):
+                    out["viol"].append((f"C05:tree:bond-limit:per-node:{M[0]}", f"tree bond dims {bd} exceed the per-node limits {lims}", detail))
+                    continue
+            elif M and any(b > M for b in bd.values()):
                 out["viol"].append((f"C05:tree:bond-limit:{crit}", f"tree bond dims {bd} exceed the limit {M}", detail))
                 continue
             if np.linalg.norm(got) > np.linalg.norm(ref) * (1 + 1e-10):
